@@ -59,8 +59,16 @@ impl RawStream {
 /// The raw items saphyr produces for `text` (BOM already stripped by the caller if the entry point
 /// strips it), up to and including the first scan error or the end of the stream.
 pub fn raw_stream(text: &str) -> RawStream {
+    raw_stream_from(Parser::new_from_str(text))
+}
+
+/// The raw items the reader-based entry points see (BufferedInput: no byte offsets in the marks).
+pub fn raw_stream_buffered(text: &str) -> RawStream {
+    raw_stream_from(Parser::new(saphyr_parser::BufferedInput::new(text.chars())))
+}
+
+fn raw_stream_from<'a>(mut parser: impl Iterator<Item = Result<(Event<'a>, Span), saphyr_parser::ScanError>>) -> RawStream {
     let mut rs = RawStream { items: Vec::new(), scan_error: false, aliases: 0, anchors: 0, scalars: 0, containers: 0, documents: 0, merge_like: 0 };
-    let mut parser = Parser::new_from_str(text);
     let mut guard = 0;
     let mut after_error = 0;
     while let Some(item) = parser.next() {
@@ -68,13 +76,10 @@ pub fn raw_stream(text: &str) -> RawStream {
         if guard > 2_000_000 {
             break;
         }
-        // saphyr keeps returning the scan error once it has occurred; the crate pulls at most a
-        // couple of further items on any path, so three repetitions represent the sticky error
-        if rs.scan_error {
-            after_error += 1;
-            if after_error > 3 {
-                break;
-            }
+        // A scanner error is sticky (saphyr returns it again on every further call) while a parser
+        // level error such as an unknown anchor is not: recording stops after three errors in a row.
+        if after_error >= 3 {
+            break;
         }
         match item {
             Ok((ev, sp)) => {
@@ -120,9 +125,11 @@ pub fn raw_stream(text: &str) -> RawStream {
                     Event::MappingEnd => ("RMapEnd".to_string(), "end"),
                     Event::Nothing => ("RNothing".to_string(), "nothing"),
                 };
+                after_error = 0;
                 rs.items.push(RawItem::Item { term: format!("RItem {body} {s}"), kind });
             }
             Err(e) => {
+                after_error += 1;
                 rs.scan_error = true;
                 let ua = e.info().to_ascii_lowercase().contains("unknown anchor");
                 rs.items.push(RawItem::ScanErr { term: format!("RScanErr {} {}", mark(e.marker()), coq::b(ua)) });
